@@ -149,6 +149,17 @@ mod verif_kani {
         check_if_tail(un(if_leaf()));
     }
 
+    //@harness props=C02,C12 kind=proof fns=BinaryOperator::left_needs_parentheses,ends_with_if_expression bound="all parent and unary operators; the stated shape with `nil` leaves"
+    //@ desc="a left operand `<unary op> x ^ if..else..` is parenthesised for every parent operator (`^` binds tighter than the unary operator, so the writer puts no parentheses around `x ^ if..` and the else branch would swallow the parent operator)" budget=600
+    #[kani::proof]
+    #[kani::unwind(5)]
+    #[kani::stub_verified(BinaryOperator::precedes)]
+    #[kani::stub_verified(BinaryOperator::is_left_associative)]
+    #[kani::stub_verified(BinaryOperator::precedes_unary_expression)]
+    fn vk_binary_left_if_under_unary_caret() {
+        check_if_tail(un(bin(BinaryOperator::Caret, Expression::nil(), if_leaf())));
+    }
+
     //@harness props=C02,C12 kind=proof tier=thorough fns=BinaryOperator::left_needs_parentheses,ends_with_if_expression bound="all operators at every symbolic position; the stated shape with `nil` leaves"
     //@ desc="a left operand `x <any op> <unary op> if..else..` is parenthesised for every parent operator" budget=600
     #[kani::proof]
@@ -208,6 +219,14 @@ mod verif_kani {
     #[kani::unwind(5)]
     fn vk_binary_left_cast_under_unary() {
         check_cast_tail(un(cast_to_name(Expression::nil())));
+    }
+
+    //@harness props=C02,C12 kind=proof fns=BinaryOperator::left_needs_parentheses,ends_with_type_cast_to_type_name_without_type_parameters bound="all 3 unary operators; the stated shape with `nil` leaves and the type name `T`"
+    //@ desc="left operand of `<` of the form `<unary op> x ^ (y :: T)` is parenthesised (no parentheses are written around `x ^ y :: T` under a unary operator, so `T <` would open a type parameter list)" budget=600
+    #[kani::proof]
+    #[kani::unwind(6)]
+    fn vk_binary_left_cast_under_unary_caret() {
+        check_cast_tail(un(bin(BinaryOperator::Caret, Expression::nil(), cast_to_name(Expression::nil()))));
     }
 
     //@harness props=C04,C12 kind=bounded fns=BinaryExpression::set_operator,Token::replace_with_content bound="all 16 x 16 (old, new) operator pairs; operands `nil`; the operator token carries a symbolic line (all usize) in either line-carrying position" budget=400
